@@ -344,9 +344,12 @@ class _Walker:
                 tgt = self.ev(outk[0])
                 self.mutate(tgt.objs, node, "out= of %s" % unparse(fn)[:30])
                 return tgt
-            if isinstance(fn, ast.Attribute) and (fn.attr in FRESH_METHODS or _np_root(fn)):
-                return EMPTY
-            if isinstance(fn, ast.Name) and fn.id in _BUILTINS:
+            if (isinstance(fn, ast.Attribute) and (fn.attr in FRESH_METHODS or _np_root(fn))) or (isinstance(fn, ast.Name) and fn.id in _BUILTINS):
+                # the result is new, but the arguments are still evaluated (an in-place change nested in one)
+                for a in list(node.args) + [k.value for k in node.keywords]:
+                    self.ev(a)
+                if isinstance(fn, ast.Attribute) and not _np_root(fn):
+                    self.ev(fn.value)
                 return EMPTY
             if isinstance(fn, (ast.Subscript, ast.Attribute, ast.Name)):
                 # a callable the library does not define: its result belongs to whoever returned it
